@@ -1361,6 +1361,10 @@ macro_rules! iter_sub_expr {
                         }
                     }
                     Expression::LitArr { fields, .. } => {
+                        // empty slots have no sub expression: skip them (not the rest of the array)
+                        while let Some(ArrayFieldKind::EmptySlot) = fields.get(self.index) {
+                            self.index += 1;
+                        }
                         let x = fields.$get(self.index)?;
                         self.index += 1;
                         match x {
